@@ -190,7 +190,12 @@ class ParamResolver:
             exponent = self.value_of(value.args[1], recursive)
             # Casts because numpy can handle expressions (by delegating to __pow__), but does
             # not have signature that will support this.
-            if isinstance(base, numbers.Number):
+            if (
+                isinstance(base, numbers.Number)
+                and isinstance(exponent, numbers.Number)
+                and not isinstance(base, sympy.Basic)
+                and not isinstance(exponent, sympy.Basic)
+            ):
                 return np.float_power(cast(complex, base), cast(complex, exponent))
             return np.power(cast(complex, base), cast(complex, exponent))
 
